@@ -159,7 +159,7 @@ func HandleBulkBody(postBody []byte, ctx *fasthttp.RequestCtx, rid uint64, myid 
 	remainingPostBody := postBody
 	for {
 		line, remainingPostBody = utils.ReadLine(remainingPostBody)
-		if len(remainingPostBody) == 0 {
+		if len(line) == 0 && len(remainingPostBody) == 0 {
 			break
 		}
 
